@@ -28,16 +28,17 @@ Step ==
        \E o \in Outs(e) :
           /\ o.r = e.r
           /\ st' = o.s /\ res' = o.r
-          /\ (e.op # "Construct" \/ o.r = "ok") => Obs(o.s) = e.obs
-          /\ (o.r = "ok" => StateInv(o.s))
-          /\ (e.op = "Read" => ReadVal(st, e.a) = e.rv)
+          \* "(...) = TRUE" forces value-level (lazy, short-circuit) evaluation inside the action
+          /\ ((e.op # "Construct" \/ o.r = "ok") => Obs(o.s) = e.obs) = TRUE
+          /\ (o.r = "ok" => StateInv(o.s)) = TRUE
+          /\ (e.op = "Read" => ReadVal(st, e.a) = e.rv) = TRUE
           \* a successful assignment reads back as assigned
-          /\ (e.op \in {"SetCharge", "SetNelec", "SetSpinpol"} /\ o.r = "ok")
-                => (e.rb = e.v /\ ReadVal(o.s, AssignedProp(e.op)) = e.rb)
+          /\ ((e.op \in {"SetCharge", "SetNelec", "SetSpinpol"} /\ o.r = "ok")
+                => (e.rb = e.v /\ ReadVal(o.s, AssignedProp(e.op)) = e.rb)) = TRUE
           \* ... and never changes the core charges
-          /\ (e.op \in {"SetCharge", "SetNelec", "SetSpinpol"}) => e.obs.core = Obs(st).core
+          /\ ((e.op \in {"SetCharge", "SetNelec", "SetSpinpol"}) => e.obs.core = Obs(st).core) = TRUE
           \* a failed assignment / a read leaves every observable unchanged
-          /\ (e.op # "Construct" /\ (o.r # "ok" \/ e.op = "Read")) => e.obs = Obs(st)
+          /\ ((e.op # "Construct" /\ (o.r # "ok" \/ e.op = "Read")) => e.obs = Obs(st)) = TRUE
   /\ l' = l + 1 /\ UNCHANGED tid
   /\ TLCSet(tid, IF TLCGet(tid) < l THEN l ELSE TLCGet(tid))
 TSpec == TInit /\ [][Step]_tvars
